@@ -268,7 +268,9 @@ def abstract_global(name, v, reg):
     if isinstance(v, (list, tuple)):
         key = ("seq", tuple(id(x) for x in v))
     elif isinstance(v, dict):
-        key = ("dict", id(v), tuple(sorted(map(str, v))))
+        # by identity only: `param` mutates the current dictionary in place, and the same object may be saved by an open
+        # executeInScenario block (a token that depended on the keys would change under the alias: false alarm)
+        key = ("dict", id(v))
     elif isinstance(v, set):
         key = ("set", tuple(sorted(map(str, v))))
     elif isinstance(v, int):
@@ -802,7 +804,7 @@ RESULT_PARTS = ["status", "trajectory", "actions", "records", "terminationType",
 def _result_component(a, b):
     """the first component in which two simulation outcomes (as returned by _outcome(snap_result)) differ"""
     if a[0] != b[0] or a[0] != "ok":
-        return "outcome"
+        return "outcome." + (a[1] if a[0] == "raised" else "ok")
     ra, rb = a[1], b[1]
     if ra[0] != rb[0] or ra[0] != "completed":
         return "status"
@@ -1200,6 +1202,29 @@ scenario Main():
         wait
         do Sub()
 """, "scenario": "Main", "key": "followup-differs:result:records.sfoo"},
+    # a sub-scenario whose setup block fails after `override ego with behavior …`: the override is never reverted (the
+    # scenario was prepared, never started, so nobody stops it) and the finally block only stops the agents' *current*
+    # behaviors: the scene's own behavior object stays running and the scene cannot be simulated again
+    "behavior-left-running": {
+        "code": REG_CLASS + """
+behavior B():
+    while True:
+        wait
+behavior X():
+    while True:
+        wait
+scenario Sub():
+    setup:
+        override ego with behavior X()
+        raise RuntimeError("boom")
+    compose:
+        wait
+scenario Main():
+    setup:
+        ego = new Foo with behavior B()
+    compose:
+        do Sub()
+""", "scenario": "Main", "key": "followup-differs:result:outcome.InvalidScenarioError"},
     # the simulator interface's destroy() raises inside the finally block of Simulation.__init__
     "destroy-failure": {"code": "ego = new Object\n", "scenario": None, "key": "cleanup-aborted:sim_destroy"},
 }
@@ -1320,6 +1345,20 @@ def run_regression(_arg=None):
             out["what"] = (f"simulating the same scene twice: the sub-scenario started at step 2 records `sfoo` at steps {recs[0]} in the first "
                            f"run and at steps {recs[1]} in the second (the shared top-level scenario still lists the sub-scenario of the "
                            "first run in _subScenarios, so its record statement is evaluated from step 0)")
+        elif name == "behavior-left-running":
+            sc = scenic.scenarioFromString(r["code"], scenario=r["scenario"])
+            scene, _ = sc.generate()
+            outs = []
+            for _ in range(2):
+                try:
+                    DummySimulator().simulate(scene, maxSteps=3)
+                    outs.append("completed")
+                except Exception as e:
+                    outs.append(f"{type(e).__name__}: {str(e)[:80]}")
+            out["violated"] = outs[0] != outs[1]
+            out["what"] = (f"a sub-scenario whose setup raises after `override ego with behavior X()`: the first simulation of the scene ends "
+                           f"with {outs[0]!r}, simulating the same scene again with {outs[1]!r} (ego's own behavior object was left running: "
+                           f"_isRunning = {scene.egoObject.behavior._isRunning})")
         elif name == "destroy-failure":
             class DS(DummySimulation):
                 def destroy(self):
